@@ -346,6 +346,12 @@ pub fn tags(s: &S, out: &mut Vec<String>) {
         }
         S::Sub(a) => {
             add("subshell".into());
+            if matches!(**a, S::Sub(_)) {
+                add("subshell-in-subshell".into());
+            }
+            if matches!(**a, S::Case(_) | S::CaseFall(..) | S::CaseCont(..)) {
+                add("case-in-subshell".into());
+            }
             tags(a, out)
         }
         S::Call(a) => {
@@ -418,7 +424,7 @@ pub fn ctl_context_tags(s: &S, in_loop: u32, in_func: bool, in_sub: bool, negate
             if in_loop > 0 {
                 let mut inner = vec![];
                 ctl_context_tags(a, 0, true, in_sub, negated, &mut inner);
-                if inner.iter().any(|t| t.contains("outside-loop") || t.contains("in-func-no-loop")) {
+                if inner.iter().any(|t| t.contains("outside-loop") || t.contains("in-func-no-loop") || t.contains("levels>loops")) {
                     add("ctl-in-func-called-from-loop".into());
                 }
             }
